@@ -100,13 +100,16 @@ class ClientHarness:
 
     HOST, PORT = "pinned.ex", 1965
 
-    def __init__(self, scr, tofu, ep="get", seed=0, verify_ssl=False):
+    def __init__(self, scr, tofu, ep="get", seed=0, verify_ssl=False, shared=None):
+        """shared = another ClientHarness: this call is made on the SAME GeminiClient object and event loop (overlapping
+        calls on one client, as the reverse proxy makes them)."""
         self.scr = scr
         self.tofu = tofu
         self.ep = ep
-        self.loop = VLoop()
+        self.shared = shared
+        self.loop = shared.loop if shared else VLoop()
         asyncio.set_event_loop(self.loop)
-        self.dir = tempfile.mkdtemp(prefix="vf-cli-", dir="/dev/shm" if os.path.isdir("/dev/shm") else None)
+        self.dir = shared.dir if shared else tempfile.mkdtemp(prefix="vf-cli-", dir="/dev/shm" if os.path.isdir("/dev/shm") else None)
         self.rx = 0
         der_a = make_cert("ec", "server-a")[2]
         der_b = make_cert("rsa", "server-b")[2]
@@ -119,9 +122,12 @@ class ClientHarness:
             _CTX = _ssl.SSLContext(_ssl.PROTOCOL_TLS_CLIENT)      # never used for I/O here: connections are fake
             _CTX.check_hostname = False
             _CTX.verify_mode = _ssl.CERT_NONE
-        self.client = GeminiClient(timeout=TIMEOUT, trust_on_first_use=(tofu != "off"), ssl_context=_CTX, verify_ssl=verify_ssl,
-                                   tofu_db_path=os.path.join(self.dir, "tofu.db") if tofu != "off" else None)
-        if tofu == "match":
+        self.client = shared.client if shared else \
+            GeminiClient(timeout=TIMEOUT, trust_on_first_use=(tofu != "off"), ssl_context=_CTX, verify_ssl=verify_ssl,
+                         tofu_db_path=os.path.join(self.dir, "tofu.db") if tofu != "off" else None)
+        if shared:
+            pass
+        elif tofu == "match":
             self.client.tofu_db.trust(self.HOST, self.PORT, x509.load_der_x509_certificate(der_a))
         elif tofu == "changed":
             self.client.tofu_db.trust(self.HOST, self.PORT, x509.load_der_x509_certificate(der_b))
@@ -221,6 +227,16 @@ class ClientHarness:
 
     def close(self):
         import shutil
+        if self.shared:
+            try:
+                if not self.task.done():
+                    self.task.cancel()
+                    self.loop.run_idle()
+                if self.task.done() and not self.task.cancelled():
+                    self.task.exception()
+            except Exception:
+                pass
+            return
         try:
             for t in asyncio.all_tasks(self.loop):
                 t.cancel()
